@@ -125,7 +125,36 @@ def gen_entities(out):
     out.append("")
 
 
-GENERATORS = [gen_registry, gen_dammit]
+def strset(xs):
+    return "[" + "; ".join(coqstr(x) for x in sorted(xs)) + "]"
+
+
+def gen_builder(out):
+    import bs4
+    from bs4.builder import HTMLTreeBuilder, TreeBuilder
+    from bs4.builder._htmlparser import HTMLParserTreeBuilder
+    from bs4 import element as E
+    out.append(comment("C03 / C04 / C17: HTMLTreeBuilder tables"))
+    t = HTMLTreeBuilder.DEFAULT_CDATA_LIST_ATTRIBUTES
+    assert all(isinstance(k, str) and all(isinstance(a, str) for a in v) for k, v in t.items())
+    out.append("Definition default_cdata_list_attributes : list (list N * list (list N)) := [" + ";\n  ".join(
+        "(%s, %s)" % (coqstr(k), strset(v)) for k, v in sorted(t.items())) + "].")
+    out.append("Definition default_empty_element_tags : list (list N) := " + strset(HTMLTreeBuilder.DEFAULT_EMPTY_ELEMENT_TAGS) + ".")
+    out.append("Definition default_preserve_whitespace_tags : list (list N) := " + strset(HTMLTreeBuilder.DEFAULT_PRESERVE_WHITESPACE_TAGS) + ".")
+    classes = {E.NavigableString: 0, E.CData: 1, E.ProcessingInstruction: 2, E.XMLProcessingInstruction: 3,
+               E.Comment: 4, E.Declaration: 5, E.Doctype: 6, E.Stylesheet: 7, E.Script: 8,
+               E.TemplateString: 9, E.RubyTextString: 10, E.RubyParenthesisString: 11}
+    out.append(comment("string classes: " + ", ".join("%d=%s" % (i, c.__name__) for c, i in classes.items())))
+    out.append("Definition default_string_containers : list (list N * N) := [" + "; ".join(
+        "(%s, %d)" % (coqstr(k), classes[v]) for k, v in sorted(HTMLTreeBuilder.DEFAULT_STRING_CONTAINERS.items())) + "].")
+    out.append("Definition ascii_spaces : list N := " + lstN(s2l(bs4.BeautifulSoup.ASCII_SPACES)) + ".")
+    out.append("Definition root_tag_name : list N := " + coqstr(bs4.BeautifulSoup.ROOT_TAG_NAME) + ".")
+    out.append("Definition string_class_affixes : list (N * (list N * list N)) := [" + "; ".join(
+        "(%d, (%s, %s))" % (i, coqstr(c.PREFIX), coqstr(c.SUFFIX)) for c, i in classes.items()) + "].")
+    out.append("")
+
+
+GENERATORS = [gen_registry, gen_dammit, gen_builder]
 ENTITY_GENERATORS = [gen_entities]
 
 
@@ -142,6 +171,11 @@ def gen_stdlib(out):
             except UnicodeDecodeError:
                 items.append("None")
         out.append("Definition %s_table : list (option N) := " % name + chunked_list(items, 16) + ".")
+    import re as _re
+    ws = [cp for cp in range(0x110000) if _re.match(r"\s", chr(cp))]
+    assert ws == [cp for cp in range(0x110000) if chr(cp).isspace()]
+    out.append(comment("code points matched by re's \\s on str (= str.isspace(), what str.strip() removes)"))
+    out.append("Definition py_whitespace : list N := " + lstN(ws) + ".")
     out.append("")
 
 
